@@ -221,7 +221,7 @@ def one_history(rec, rnd, idx, nops):
 
 
 def shards(tier, seed):
-    n = 320 if tier == "quick" else 16000
+    n = 320 if tier == "quick" else 96000
     per = 20 if tier == "quick" else 250
     return [{"seed": seed, "first": i, "n": per, "ops": 60 if tier == "quick" else 120} for i in range(0, n, per)]
 
